@@ -179,7 +179,9 @@ def slot_obligations(record):
                          and (tgt.__name__ == f"attrs_{id(tgt)}" or tgt.__name__ == "__root__"))
             if not any(tgt is x for x in allowed) and not is_holder:
                 problems.append(f"{ast.unparse(n)}: target {a[0].id} is not the builder's own holder/class")
-            if b is not None and b.dialect is not None:
+            # (helper functions of the text - union / discriminator helpers with a random suffix - are stored under their own fresh name)
+            is_helper = isinstance(a[1], ast.Constant) and isinstance(a[1].value, str) and a[1].value in defs and not a[1].value.startswith("__mashumaro_")
+            if b is not None and b.dialect is not None and not is_helper:
                 problems.append(f"{ast.unparse(n)}: a unit compiled for a call dialect must only write its dialect cache slot")
         elif isinstance(n, ast.Assign) and isinstance(n.targets[0], ast.Subscript):
             t = n.targets[0]
